@@ -337,18 +337,20 @@ EmisBanks == {bn \in BankNames : Bit(InitState.banks[bn].flags, BANK_EMIS_LEND) 
 Init == /\ st = InitState /\ acc = C02AccNext(C02Acc0, InitState, [ev |-> "reset"], InitState)
         /\ acc7 = C07Acc0 /\ sid = 0 /\ depth = 0 /\ TLCSet(1, 1)
 
+\* accounts that still exist (Life.tla closes accounts; everywhere else this is Accts)
+Live == Accts \cap DOMAIN st.accts
 Next ==
   /\ depth < MaxDepth
   /\ \/ \E d \in Ticks : Tick(d)
-     \/ \E an \in Accts, bn \in BankNames, amt \in Amounts :
+     \/ \E an \in Live, bn \in BankNames, amt \in Amounts :
           \/ Deposit(an, bn, amt) \/ Borrow(an, bn, amt)
           \/ Withdraw(an, bn, amt, FALSE) \/ Repay(an, bn, amt, FALSE)
-     \/ \E an \in Accts, bn \in BankNames : Withdraw(an, bn, 0, TRUE) \/ Repay(an, bn, 0, TRUE) \/ CloseBalance(an, bn)
-     \/ \E an \in Accts, bn \in EmisBanks : SettleEmissions(an, bn)
+     \/ \E an \in Live, bn \in BankNames : Withdraw(an, bn, 0, TRUE) \/ Repay(an, bn, 0, TRUE) \/ CloseBalance(an, bn)
+     \/ \E an \in Live, bn \in EmisBanks : SettleEmissions(an, bn)
      \/ \E bn \in BankNames : Accrue(bn) \/ CollectFees(bn)
-     \/ \E t \in LiqTriples, q \in Amounts : Liquidate(t[1], t[2], t[3], t[4], q)
+     \/ \E t \in LiqTriples, q \in Amounts : (Has(st.accts, t[1]) /\ Has(st.accts, t[2])) /\ Liquidate(t[1], t[2], t[3], t[4], q)
      \/ \E p \in Prices : SetPrice(p[1], p[2], p[3])
-     \/ \E c \in BkCases : Bankruptcy(c[1], c[2], c[3])
+     \/ \E c \in BkCases : Has(st.accts, c[1]) /\ Bankruptcy(c[1], c[2], c[3])
 
 Spec == Init /\ [][Next]_vars
 
